@@ -75,6 +75,27 @@ pub fn guarded<R>(f: impl FnOnce() -> R) -> Result<R, String> {
 /// Runs `n` cases on worker threads (64 MiB stacks); case `i` is produced by `f(i)`.
 /// A panic escaping `f` (a harness bug, not an outcome of the code under test) is turned into a
 /// case with an oracle failure so it cannot go unnoticed.
+/// Cases being executed right now, mirrored to the file named by `VH_INFLIGHT` (if set) at every case
+/// start.  If the real code under test takes the whole process down (memory corruption, runaway
+/// allocation, a hang that is killed from outside), `check` reads the file and re-runs those cases
+/// one by one to pin the crash on a case.
+static INFLIGHT: std::sync::Mutex<Vec<String>> = std::sync::Mutex::new(Vec::new());
+
+fn inflight_update(add: Option<&str>, remove: Option<&str>) {
+    let Ok(path) = std::env::var("VH_INFLIGHT") else { return };
+    let mut g = INFLIGHT.lock().unwrap_or_else(|e| e.into_inner());
+    if let Some(r) = remove {
+        if let Some(p) = g.iter().position(|x| x == r) {
+            g.swap_remove(p);
+        }
+    }
+    if let Some(a) = add {
+        g.push(a.to_string());
+        // only starts are written: a finished case can no longer crash
+        let _ = std::fs::write(&path, g.join("\n"));
+    }
+}
+
 pub fn par_cases(ctx: &Ctx, prop: &str, stream: &str, n: usize, f: impl Fn(usize, String) -> Case + Sync) -> Vec<Case> {
     let threads = ctx.threads.max(1).min(n.max(1));
     let mut out: Vec<Vec<(usize, Case)>> = vec![];
@@ -98,7 +119,10 @@ pub fn par_cases(ctx: &Ctx, prop: &str, stream: &str, n: usize, f: impl Fn(usize
                         let id = ctx.case_id(prop, stream, i);
                         if ctx.wants(&id) {
                             let idc = id.clone();
-                            let c = match catch_unwind(AssertUnwindSafe(|| f(i, idc))) {
+                            inflight_update(Some(&id), None);
+                            let res = catch_unwind(AssertUnwindSafe(|| f(i, idc)));
+                            inflight_update(None, Some(&id));
+                            let c = match res {
                                 Ok(c) => c,
                                 Err(_) => {
                                     let mut c = Case::new(id);
